@@ -185,8 +185,12 @@ def check(ctx: Ctx) -> None:
     ok_a = acc['at 0'] and acc['between 0 and %s' % dn] and not acc['at %s' % dn] and not acc['above %s' % dn]
     from .. import terms as T
     loc = T.local_terms(M, fn)
-    ok_p = 'alpha_m' in loc and loc['alpha_m'] == T.parse_spec('2 * pi * n_cs / denominator')
-    ctx.obligation('C18.b', 'get_shifted_root_seq', ok_a and ok_p, {'asserts': asserts, 'alpha_m': loc['alpha_m'].pretty() if 'alpha_m' in loc else None})
+    want_ramp = T.parse_spec('2 * pi * %s / %s' % (pn, dn))
+    ramp_names = [k_ for k_, v_ in loc.items() if v_ == want_ramp]
+    ok_p = bool(ramp_names)
+    if not ok_p and not any(any(a_ == ('sym', 'pi') for a_ in T.atoms_of(v_)) for v_ in loc.values()):
+        ctx.error('C18.b: get_shifted_root_seq no longer computes its phase ramp as a formula of pi in a local (cannot tell)')
+    ctx.obligation('C18.b', 'get_shifted_root_seq', ok_a and ok_p, {'asserts': asserts, 'phase_ramp_local': ramp_names})
     if not (ok_a and ok_p):
         ctx.violation('C18.b', 'get_shifted_root_seq', 'shift guard |n_cs| < denominator (%s) or phase ramp 2 pi n_cs/denominator '
                       '(%s) broken' % (ok_a, ok_p), fn.path, fn.lineno, operand='shift')
